@@ -7,6 +7,9 @@ mod ops_pure;
 mod ops_typed;
 mod ops_rich;
 mod ops_convert;
+mod ops_pattern;
+mod ops_version;
+mod ops_scan;
 // MOD-MARKER (add `mod ops_<m>;` above this line)
 
 use std::cell::RefCell;
@@ -31,6 +34,9 @@ fn dispatch(st: &mut State, line: &str) -> String {
 		.or_else(|| ops_typed::dispatch(st, fam, rest))
 		.or_else(|| ops_rich::dispatch(st, fam, rest))
 		.or_else(|| ops_convert::dispatch(st, fam, rest))
+		.or_else(|| ops_pattern::dispatch(st, fam, rest))
+		.or_else(|| ops_version::dispatch(st, fam, rest))
+		.or_else(|| ops_scan::dispatch(st, fam, rest))
 		// DISPATCH-MARKER (add `.or_else(|| ops_<m>::dispatch(st, fam, rest))` above this line)
 		.unwrap_or_else(|| "bad-op".to_string())
 }
